@@ -37,13 +37,25 @@ func (msgServer).subUnlockedERC20Tokens
     // C10 (conversion by the bank-send wrapper ... or fails without effect): success is reported only if the token's transfer()
     // returned true (finding F-N1, fixed: the error of the preceding, successful CallEVM was wrapped, which is nil)
     ensures c10_transfer_true: result == nil ==> abi_bool(ret(CallEVM, 1, 0).Ret)
+    // ... moves exactly the same amount: success is reported only if the receiver's token balance, re-read after the transfer, grew by
+    // exactly the amount (whatever the token contract reports), and no Approval event was emitted by the transfer
+    ensures c10_exact_credit: result == nil ==> *ret(BalanceOf, 3, 0) == *ret(BalanceOf, 2, 0) + amt.Amount
+    ensures c10_no_approval: result == nil ==> NoApprovalB(ret(CallEVM, 1, 0))
 
 // the bank wrapper's copy of the Approval-event scan: reads the response only (verified: no modifies clause), so that the response
 // of the EVM call is still the same object when subUnlockedERC20Tokens returns
+alias TxRespB github.com/haqq-network/haqq/x/evm/types.MsgEthereumTxResponse
+specfunc approval_topic_b() string = ehash_hex(keccak1(conv_Str_to_Slice_Int("Approval(address,address,uint256)")))
+// no log of the response carries the ERC20 Approval topic
+specfunc NoApprovalB(res *TxRespB) bool = res == nil
+        || (forall i int :: 0 <= i && i < len(res.Logs) ==> !(len(res.Logs[i].Topics) > 0 && res.Logs[i].Topics[0] == approval_topic_b()))
 func (msgServer).monitorApprovalEvent
-    loop 1 invariant idx: 0 <= #i && #i <= len(res.Logs)
-    ensures true
+    // a nil entry in res.Logs would panic (abort of the message): not an effect, allowed
     allow nil
+    // C10 (... even against token contracts that emit unexpected events): nil only if no log carries the Approval topic
+    ensures c10_clean: result == nil ==> NoApprovalB(res)
+    loop 1 invariant seen: res != nil && 0 <= #i && #i <= len(res.Logs)
+            && (forall j int :: 0 <= j && j < #i ==> !(len(res.Logs[j].Topics) > 0 && res.Logs[j].Topics[0] == approval_topic_b()))
 
 // ---- expected keepers of the wrapper (assumed contracts = trusted leaves): erc20 params / token-pair store reads,
 // account store reads and writes
